@@ -70,9 +70,9 @@ var checks = map[string]checkCfg{
 		Assumptions: baseAssumptions,
 		Phases:      []phase{rp("rapid", "^TestC08$", 6, 1500, 16, 15000), rp("drain", "^TestC08Drain$", 4, 20, 8, 200)}},
 	"C09": {Level: "exploration", Technique: "rapid allow-lists/addresses; three-way differential against a bit-level membership oracle + request gate",
-		Rule:        "each case draws an allow-list of 0-4 entries (single IPv4/IPv6 addresses, CIDRs of every prefix length 0-32/0-128, IPv4-mapped forms, malformed entries), the Secure flag and 4-16 probes (client placed at network-1, network, last, last+1, inside, outside, mapped and malformed forms; ports 0,1,1023,1024,1025,65535; any program/procedure); every probe is one decision compared three ways and one full request through HandleCall; non-trivial = the list is non-empty and the decision involves a CIDR or an IPv4-mapped client; distinct = FNV-64 of the case JSON; label decisions counts single decisions",
+		Rule:        "each case draws an allow-list of 0-4 entries (single IPv4/IPv6 addresses, CIDRs of every prefix length 0-32/0-128, IPv4-mapped forms, malformed entries), the Secure flag and 4-16 probes (client placed at network-1, network, last, last+1, inside, outside, mapped and malformed forms; ports 0,1,1023,1024,1025,65535; any program/procedure); every probe is one decision compared three ways and one full request through HandleCall; non-trivial = the list is non-empty and the decision involves a CIDR or an IPv4-mapped client; distinct = FNV-64 of the case JSON; label decisions counts single decisions. Phase conn: histories of 4-24 steps over up to 8 long-lived connections served by the real connection loop {open from an address, request on a connection, replace the allow-list/Secure flag through UpdatePolicyOptions or UpdateExportOptions}; every request is judged against the list in force when it is sent; non-trivial there = a request had to be denied after an update happened under an open connection",
 		Assumptions: append([]string{"zoned client strings and IPv4-mapped CIDR entries shorter than /96 are generated but only checked for no-over-grant and agreement between the two filters (the statement does not define them)"}, baseAssumptions...),
-		Phases:      []phase{rp("rapid", "^TestC09$", 4, 1500, 16, 30000)}},
+		Phases:      []phase{rp("rapid", "^TestC09$", 4, 1500, 16, 30000), rp("conn", "^TestC09Conn$", 4, 250, 16, 4000)}},
 	"C10": {Level: "exploration", Technique: "rapid credentials vs reference squash function (AuthResult, AuthContext after HandleCall, ACCESS group decision)",
 		Rule:        "each case draws a squash mode (valid, mixed case, unrecognised), a credential flavor, uid/gid from boundary and random values, 0-16 auxiliary gids, machine name length, and an AUTH_SYS body that is whole, truncated at a byte offset or declares an over-limit gid count; optionally the credential is pre-parsed and shared with the caller; non-trivial = the reference mapping differs from identity, or the credential must be rejected; distinct = FNV-64 of the case JSON",
 		Assumptions: append([]string{"machine names longer than 255 bytes are not generated (RFC 1831 bounds them, absnfs does not)", "for an unrecognised squash mode only uid/gid are judged (the statement does not define the auxiliary list)"}, baseAssumptions...),
@@ -99,9 +99,10 @@ var checks = map[string]checkCfg{
 		Phases: []phase{rp("rapid", "^TestC14$", 6, 1200, 16, 15000),
 			{Name: "concurrent-race", Variant: "race", Tests: "^TestC14Concurrent$", QuickShards: 3, QuickChecks: 60, ThoroughShards: 8, ThoroughChecks: 800}}},
 	"C15": {Level: "exploration", Technique: "rapid structured stream mutation + native fuzz against the record-marking connection loop; reply-stream invariant vs reference stream parser",
-		Rule:        "each case is a byte stream for one record-marking connection: 1-8 records, each a valid call of any program/procedure (or raw garbage) with 0-3 mutations (truncation, bit flip, a 4-byte word replaced by a hostile constant, appended bytes), an arbitrary fragmentation and framing games (missing last-fragment flag, lying fragment length, stray fragment headers); a reference parser decides which records a conformant server can decode; non-trivial = the stream holds >=1 decodable call and >=1 mutated/garbage record (every fuzz input counts); distinct = FNV-64 of the case JSON; thorough adds a native fuzz campaign seeded with valid calls and hostile constants",
+		Rule:        "each case is a byte stream for one record-marking connection: 1-8 records, each a valid call of any program/procedure (or raw garbage) with 0-3 mutations (truncation, bit flip, a 4-byte word replaced by a hostile constant, appended bytes), an arbitrary fragmentation and framing games (missing last-fragment flag, lying fragment length, stray fragment headers); an enumeration phase substitutes every hostile constant for every argument word of every NFSv3 procedure x 6 handle/name variants, one substitution per call, 24 calls per stream; a reference parser decides which records a conformant server can decode; non-trivial = the stream holds >=1 decodable call and >=1 mutated/garbage record (every fuzz input counts); distinct = FNV-64 of the case JSON; thorough adds a native fuzz campaign seeded with valid calls and hostile constants",
 		Assumptions: append([]string{"a stream that simply ends inside a record does not oblige the server to close the connection before its read timeout; only complete undecodable records do", "allocation bound: 16 x bytes sent + records x (6 x 64 KiB + 64 KiB) + 8 MiB (TotalAlloc of the whole process)"}, baseAssumptions...),
 		Phases: []phase{rp("rapid", "^TestC15$", 8, 300, 16, 4000),
+			{Name: "enum", Variant: "plain", Tests: "^TestC15Enum$", QuickShards: 8, ThoroughShards: 8},
 			{Name: "fuzz", Variant: "plain", ThoroughOnly: true, Fuzz: "^FuzzC15$", FuzzSeconds: 240, ThoroughShards: 1}}},
 	"C16": {Level: "exploration", Technique: "rapid schedules with harness-owned gates inside the backend + policy-version invariants; same property under the race detector",
 		Rule:        "each case is a schedule of 3-14 steps over {start a request that parks on a backend gate (read or mutating), start UpdatePolicyOptions/UpdateExportOptions to the next stamped policy, prove the drain by probing until the first retry-later reply, open a gate, probe, fresh request judged under the policy in force, rate limiting switched on under an open connection}, optionally with a 40 ms request timeout so that parked requests time out; non-trivial = an update was started while >=1 request was parked in the backend, or rate limiting was enabled under an open connection; distinct = FNV-64 of the case JSON. Schedules are sampled, not enumerated; the Go scheduler's own choices are not controlled",
